@@ -1418,9 +1418,59 @@ def run(ctx):
         if "harness_error" not in r and r.get("status"):
             k = r["case"]["tool"] + ":" + str(r["status"])
             ctx.extra["responses_by_status"][k] = ctx.extra["responses_by_status"].get(k, 0) + 1
+    history_stream(ctx)
     ctx.extra["run_s"] = round(time.time() - t0, 1)
     if not have_model:
         ctx.explanation = "extracted model not available: implementation-side property search only"
+
+
+
+# ------------------------------------------------------------------------------------------------------------
+# histories: the status must describe the schema that is ACTUALLY found at the time of the call, whatever the same
+# process resolved before (a long-lived server moves between projects; the search path is cwd-relative)
+HIST_DOC = '===D===\nHISTS:\n  NAME::"bob"\n===END===\n'
+HIST_LAX = schema_text("HISTS", "REJECT", [("NAME", "ex", "REQ∧TYPE[STRING]")])
+HIST_STRICT = schema_text("HISTS", "REJECT", [("NAME", "ex", "REQ∧TYPE[STRING]"), ("OWNER", "ex", "REQ∧TYPE[STRING]")])
+
+
+def history_stream(ctx):
+    from octave_mcp.mcp.validate import ValidateTool
+    from octave_mcp.mcp.write import WriteTool
+    old = os.getcwd()
+    root = os.path.realpath(tempfile.mkdtemp(prefix="c10h_"))
+    try:
+        dirs = {}
+        for name, text in (("lax", HIST_LAX), ("none", None), ("strict", HIST_STRICT)):
+            d = os.path.join(root, name)
+            os.makedirs(os.path.join(d, "specs", "schemas"))
+            if text is not None:
+                with open(os.path.join(d, "specs", "schemas", "hists.oct.md"), "w", encoding="utf-8") as f:
+                    f.write(text)
+            dirs[name] = d
+        want = {"lax": "VALIDATED", "none": "UNVALIDATED", "strict": "INVALID"}
+        orders = [("lax", "none"), ("lax", "strict"), ("strict", "lax"), ("none", "lax"), ("lax", "none", "strict", "lax"),
+                  ("strict", "none", "lax", "none")]
+        for order in orders:
+            seen = []
+            for where in order:
+                os.chdir(dirs[where])
+                rv = call(ValidateTool(), dict(content=HIST_DOC, schema="HISTS"))
+                rw = call(WriteTool(), dict(target_path=os.path.join(dirs[where], "out.oct.md"), content=HIST_DOC, schema="HISTS",
+                                            corrections_only=True))
+                seen.append(where)
+                for tool, r in (("octave_validate", rv), ("octave_write", rw)):
+                    ctx.count()
+                    ctx.nontrivial(("history", tool, tuple(seen)))
+                    got = r.get("validation_status")
+                    if got != want[where]:
+                        ctx.property_failure({"stream": "history", "tool": tool, "schema": "HISTS", "content": HIST_DOC,
+                                              "cwd_sequence": list(seen), "schema_here": where, "validation_status": got,
+                                              "expected": want[where]},
+                                             f"{tool}: validation_status {got} does not describe the schema found at the time of the call "
+                                             f"(expected {want[where]} after the history {seen})")
+    finally:
+        os.chdir(old)
+        shutil.rmtree(root, ignore_errors=True)
 
 
 def replay(ctx, case):
